@@ -46,6 +46,8 @@ type saoWorld struct {
 	reported     []*saotypes.Fault // faults a fishman's report put on record
 	scarce       bool             // only two providers accept orders: selections run out of candidates
 	silent       *Account         // a provider that never completes anything (scarce worlds)
+	spTx         map[string]*Account // provider address -> its declared transaction address
+	poor         *Account         // a provider with (almost) no liquid coins: collateral it cannot pay becomes debt
 	granteeWrote []string         // models whose latest accepted update was signed by their grantee
 }
 
@@ -104,7 +106,13 @@ func (w *saoWorld) setup(accts []*Account) {
 		if w.scarce && i >= 2 {
 			continue
 		}
-		r.NodeReset(p, "", 13, "", nil)
+		if i == 0 {
+			// a provider that works through a separate transaction address (the gateway's worker account doubles as it)
+			r.NodeReset(p, "", 13, "", []string{w.gwTx[w.gateways[0].Bech()].Bech()})
+			w.spTx = map[string]*Account{p.Bech(): w.gwTx[w.gateways[0].Bech()]}
+		} else {
+			r.NodeReset(p, "", 13, "", nil)
+		}
 		size := uint64(50000000 + 10000000*i)
 		if i == 5 {
 			size = 2000000 // small provider: runs out of capacity
@@ -113,7 +121,8 @@ func (w *saoWorld) setup(accts []*Account) {
 		if i == 4 && w.rng.Intn(2) == 0 {
 			// a provider that keeps almost nothing liquid: renewals for a longer period put it into debt
 			if bal := w.c.App.BankKeeper.GetBalance(w.c.deliverCtx(), p.Addr, Denom).Amount.Int64(); bal > 500 {
-				r.Send(p, w.gateways[0], bal-int64(100+w.rng.Intn(300)))
+				r.Send(p, w.gateways[0], bal-int64(w.rng.Intn(400)))
+				w.poor = p
 			}
 		}
 	}
@@ -182,6 +191,8 @@ func (w *saoWorld) storeNew(mut string) {
 		p.Cid = "notacid"
 	case "huge-size":
 		p.Size_ = 1 << 63
+	case "zero-size":
+		p.Size_ = 0
 	case "bad-dataid":
 		p.DataId = "short"
 		p.CommitId = "short"
@@ -273,6 +284,9 @@ func (w *saoWorld) completeSome(mut string) {
 			}
 		}
 		signer, provider, cidv, size := sp, sp.Bech(), goodCid2, sh.Size_
+		if tx, ok := w.spTx[sp.Bech()]; ok && mut == "" && rng.Intn(2) == 0 {
+			signer = tx
+		}
 		switch mut {
 		case "wrong-size":
 			size++
@@ -386,12 +400,21 @@ func (w *saoWorld) renew(mut string) {
 		data = append(data, w.models[rng.Intn(len(w.models))])
 	}
 	dur := []uint64{3600, 7200, 3600, 5000}[rng.Intn(4)]
+	if w.poor != nil && rng.Intn(2) == 0 {
+		dur = []uint64{14400, 36000}[rng.Intn(2)]
+	}
+	if mut == "short" {
+		dur = 3599
+	}
 	if mut == "too-long" {
 		dur = 63072001
 	}
 	p := saotypes.RenewProposal{Owner: o.did, Duration: dur, Timeout: 10, Data: data}
 	jws := SignJWS(&p, o.key, o.kid)
 	signer, provider := gw, gw.Bech()
+	if tx, ok := w.gwTx[gw.Bech()]; ok && rng.Intn(3) == 0 {
+		signer = tx
+	}
 	if mut == "attacker-relay" {
 		signer, provider = w.attacker, w.attacker.Bech()
 	}
@@ -427,7 +450,14 @@ func (w *saoWorld) terminate(mut string) {
 	if mut == "tampered" {
 		p.DataId = w.models[rng.Intn(len(w.models))]
 	}
-	w.r.Terminate(gw, &saotypes.MsgTerminate{Creator: gw.Bech(), Proposal: p, JwsSignature: jws, Provider: gw.Bech()})
+	tsigner := gw
+	if tx, ok := w.gwTx[gw.Bech()]; ok && rng.Intn(3) == 0 {
+		tsigner = tx
+	}
+	if mut == "unknown-relay" {
+		tsigner = w.owners[0].acct // not a node and not declared by the named gateway
+	}
+	w.r.Terminate(tsigner, &saotypes.MsgTerminate{Creator: tsigner.Bech(), Proposal: p, JwsSignature: jws, Provider: gw.Bech()})
 }
 
 func (w *saoWorld) permission(mut string) {
@@ -654,16 +684,16 @@ func runSaoHistory(r *Recorder, rng *rand.Rand, accts []*Account, nOps int, long
 			switch {
 			case x < 18 || len(w.models) == 0:
 				w.storeNew(weighted(rng, []string{"sponsor", "sponsor-foreign", "owner-direct", "owner-direct", "neg-timeout", "zero-timeout", "replica0", "replica-neg",
-					"replica-many", "short", "bad-cid", "huge-size", "bad-dataid", "wrong-key", "wrong-did", "foreign-version", "stranger-gateway",
+					"replica-many", "short", "bad-cid", "huge-size", "zero-size", "bad-dataid", "wrong-key", "wrong-did", "foreign-version", "stranger-gateway",
 					"claimed-provider", "tampered", "unknown-gateway"}, 35))
 			case x < 45:
 				w.completeSome(weighted(rng, []string{"wrong-size", "zero-size", "bad-cid", "not-assigned", "impersonate", "attacker-node"}, 15))
 			case x < 55:
 				w.update(weighted(rng, []string{"stale-base", "prefix-base", "empty-base", "embed-dataid", "stranger", "grantee", "readonly"}, 30))
 			case x < 63:
-				w.renew(weighted(rng, []string{"stranger", "too-long", "attacker-relay", "grantee", "grantee"}, 30))
+				w.renew(weighted(rng, []string{"stranger", "too-long", "short", "attacker-relay", "grantee", "grantee"}, 30))
 			case x < 68:
-				w.terminate(weighted(rng, []string{"stranger", "tampered", "grantee", "readonly"}, 30))
+				w.terminate(weighted(rng, []string{"stranger", "tampered", "grantee", "readonly", "unknown-relay"}, 30))
 			case x < 75:
 				w.permission(weighted(rng, []string{"stranger", "bad-did"}, 25))
 			case x < 80:
